@@ -29,7 +29,7 @@ def reason(s, nodup, member):
 
 def cases_of(ctx):
     n = 120 if ctx.tier == "quick" else 1200
-    sets = list(genlib.SOURCE_SETS) + genlib.doc_sources(ctx.rng, n)
+    sets = list(genlib.BIG_SOURCE_SETS) + list(genlib.SOURCE_SETS) + genlib.doc_sources(ctx.rng, n)
     # source sets aimed INSIDE the proved class: member documents of the systematically built in-class shapes
     # (genlib.good_family: every container nesting around pairwise different objects, weak-keyword member names)
     fam = genlib.good_family()
@@ -54,6 +54,21 @@ def run(ctx):
     cases = cases_of(ctx)
     ts = [sh_str(s) for _, s, _ in cases]
     mi, _ = ctx.correspond(["gen_render\t" + t for t in ts], "render on inferred shapes")
+    # end to end: for the first cases (the big sources and the hand-written sets) the text is what compile_json
+    # itself returns for real files holding the sources - reading, inference and generation together - and it
+    # must be the rendering of the shape inferred from the FULL sources; if it is not, the serde oracle below
+    # judges the text compile_json really produced
+    e2e = list(range(min(len(cases), 24)))
+    cl = ["compile\t%s\t%s%s" % (hexs("e2e"), hexs("out"), "".join("\tT" + hexs(t) for t in cases[i][0])) for i in e2e]
+    sc = ctx.corr_scopes.setdefault("compile_json(real files) returns render(shape inferred from the full sources)", {"cases": 0, "disagreements": 0})
+    mi = list(mi)
+    for i, l, r in zip(e2e, cl, ctx.impl(cl)):
+        c = genlib.parse_compile(r)
+        sc["cases"] += 1
+        if c["ret"] == "OK" and c["text"] != genlib.text_of(mi[i]):
+            sc["disagreements"] += 1
+            ctx.disagreements.append({"scope": "compile_json end to end", "case": l[:300], "model": (genlib.text_of(mi[i]) or "")[:300], "impl": c["text"][:300]})
+            mi[i] = "TEXT " + c["text"].encode().hex()
     items, encs, compiles = [], [], []
     for t, r in zip(ts, mi):
         try:
